@@ -14,7 +14,9 @@ func init() {
 		ID: "C35",
 		Explanation: "Decides table consistency and field coverage of the smart-protocol messages, not value round-trip: (capability-tables) every capability that requiresArgument lists is known, every capability that allows multiple arguments " +
 			"requires one; (message-codec-coverage) for every type of plumbing/protocol/packp that has both Encode(io.Writer) error and Decode(io.Reader) error, each exported field read by the functions reachable from Encode is also written by the " +
-			"functions reachable from Decode (a field that is sent but never parsed cannot round-trip). Not decided: equality of decoded values; that git parses go-git's bytes.",
+			"functions reachable from Decode (a field that is sent but never parsed cannot round-trip); (decode-accepts-encoded-order) for UploadRequest, whose decoder is a hand-written sequence of loops: for every decoder loop and every line kind the encoder " +
+			"writes after the kinds that loop consumes, a three-valued evaluation of the decoder's branch conditions under the assumption 'the line just read has that kind' reaches the condition that recognises the kind before any rejecting return " +
+			"(so want→shallow→deepen*→filter orderings produced by Encode are not refused). Not decided: equality of decoded values; that git parses go-git's bytes.",
 		Assumptions: []string{},
 		Run:         runC35,
 	})
@@ -88,6 +90,9 @@ func switchCaseIdents(info *types.Info, fi *FuncInfo) map[types.Object]bool {
 
 func runC35(c *Ctx) {
 	p := c.P
+	PackagesStateFree(c, "codec-state-free", "plumbing/protocol/packp", "plumbing/protocol/capability")
+	checkDecodeAcceptsEncodeOrder(c, "decode-accepts-encoded-order", "plumbing/protocol/packp.(*UploadRequest).Encode", "plumbing/protocol/packp.(*UploadRequest).Decode")
+	c.Floor("decode-accepts-encoded-order", 8)
 	const capShort = "plumbing/protocol/capability"
 	const r1 = "capability-tables"
 	known, req, multi := p.Func(capShort+".isKnown"), p.Func(capShort+".requiresArgument"), p.Func(capShort+".allowsMultipleArguments")
@@ -430,6 +435,7 @@ func runC07(c *Ctx) {
 }
 
 func runC01(c *Ctx) {
+	PackagesStateFree(c, "codec-state-free", "plumbing/format/objfile", "plumbing")
 	const r1 = "object-header"
 	// the three header emitters: ordered sequence of what is written
 	type emitter struct{ fn string }
